@@ -257,7 +257,7 @@ Definition optN_eqb := option_eqb N.eqb.
 Definition path_eqb := list_eqb N.eqb.
 
 (* the part before the loops: update the group itself if the destination has it *)
-Definition merge_group_head (now : Z) (si : ginfo) (root : node) : res (node * log) :=
+Definition merge_group_head_below (now : Z) (si : ginfo) (root : node) : res (node * log) :=
   match fnl_db (gi_uuid si) (children_of root) with
   | Some loc =>
     let p := loc ++ [gi_uuid si] in
@@ -266,6 +266,17 @@ Definition merge_group_head (now : Z) (si : ginfo) (root : node) : res (node * l
     do root1 <- of_option (EFindGroup p) (put_group p di' dc root);
     Ok (root1, lg)
   | None => Ok (root, [])
+  end.
+
+Definition merge_group_head (now : Z) (si : ginfo) (root : node) : res (node * log) :=
+  (* the root group is not below any group: since the repair F19 its own fields are merged directly *)
+  match root with
+  | NG ri rc =>
+    if N.eqb (gi_uuid si) (gi_uuid ri) then
+      do (ri', lg) <- group_merge_with now ri si;
+      Ok (NG ri' rc, lg)
+    else merge_group_head_below now si root
+  | NE _ => merge_group_head_below now si root
   end.
 
 (* one iteration of `for other_entry in &current_group.entries()` *)
